@@ -67,18 +67,21 @@ def step (s : Sess) (c : Cmd) : Sess × String × String :=
     let cap := if dflt then Gen.PQUEUE_DEFAULT_CAPACITY else c.nat "cap" Gen.PQUEUE_DEFAULT_CAPACITY
     let f := if dflt then defaultFactor else effFactor (match c.str "exp" with | some t => parseF32 t | none => defaultFactor)
     let modc := (c.str "cmp").getD "num" == "mod"
-    -- the byte size `capacity * sizeof(void*)` must be representable: the spec rejects the capacity
-    -- otherwise (the library currently does not: corpus/pqueue/defect_capacity_overflow.ops)
-    let invalid := cap = 0 || exGeF f (Gen.CC_MAX_ELEMENTS / cap)
+    let invalid := cap = 0 || exGeF f (Gen.CC_MAX_ELEMENTS / cap) || cap > Gen.CC_MAX_ELEMENTS / PQueue.ptrSize
     let (sst, sp) : Stat × Option (List Nat) :=
-      if invalid || cap * 8 ≥ 2 ^ 64 then (.errInvalidCapacity, none)
+      if invalid then (.errInvalidCapacity, none)
       else if c.fired > 0 then (.errAlloc, none) else (.ok, some [])
+    -- the harness allocator refuses requests above 2^40 bytes ("absurd"): the buffer request of such a
+    -- capacity fails without counting as a scheduled refusal
+    let absurd := cap * PQueue.ptrSize > 2 ^ 40
     -- a model buffer of more than 2^24 slots is not materialised: no model line for such sessions
-    if !invalid && cap > 16777216 then
+    if !invalid && !absurd && cap > 16777216 then
       let s' : Sess := { mem := m, exp := f, modc }
       (s', lineS (fmtStat sst) { s' with spec := sp }, "M ? capacity too large for the executable model")
     else
+    let m := if absurd && c.sched.isEmpty then s.mem.begin [false, true] else m
     let (st, r, m) := PQueue.new cap (exGeF f) m
+    let m := if absurd && c.sched.isEmpty then { m with nrefused := 0 } else m
     let s' : Sess := { model := r, spec := sp, mem := m, exp := f, modc }
     (s', lineS (fmtStat sst) s', lineM (fmtStat st) s' none)
   | _ =>
